@@ -6,12 +6,12 @@ import json, subprocess, os, sys
 CHECKS = {
  # id: (category, level text, level note, design ref, technique)
  "C01": ("model_checking",
-         "All transactions of 1-2 postings over a 153-shape posting alphabet (values {-1,0,1,2,0.005,-0.015} x {X,Y,Z} x {none,@,@@,{},{{}},{}+@,zero rate,same-commodity rate}, omitted, bare 0, parenthesised spellings) x 4 precision contexts, all 3-posting ones over 40 shapes (quick) / the full alphabet (thorough), 4-posting ones over 12/30 shapes, and 1-2 posting ones after 3 non-empty histories, are run through report::process and compared with RefLedger: accepted iff balanced-by-the-statement, rejected with a BookKeep error located inside that transaction otherwise, never a crash; recorded amounts and balances equal the reference. Exhaustive within those bounds.",
+         "All transactions of 1-2 postings over a 198-shape posting alphabet (values {-1,0,1,2,0.005,-0.015} x {X,Y,Z} x {none,@,@@,{},{{}},{}+@,zero rate,same-commodity rate,negative totals}, totals the quantity does not divide, omitted, bare 0, parenthesised spellings) x 4 precision contexts, all 3-posting ones over 40 shapes (quick) / the full alphabet (thorough), 4-posting ones over 12/30 shapes, and 1-2 posting ones after 3 non-empty histories, are run through report::process and compared with RefLedger: accepted iff balanced-by-the-statement, rejected with a BookKeep error located inside that transaction otherwise, never a crash; recorded amounts and balances equal the reference. Exhaustive within those bounds.",
          "Trusted: RefLedger (harness/src/refledger.rs) as the reading of C01-C03; Q exact rational arithmetic; rust_decimal only to read results. Implied exchanges, rounding midpoints and ill-formed exchanges are DON'T-CARE for acceptance (still executed; if accepted, amounts must be right).",
          "DESIGN.md §5 C01",
          "bounded-exhaustive enumeration of transactions x contexts x histories vs reference ledger model (stateless explicit-state exploration)"),
  "C02": ("model_checking",
-         "Explicit-state BFS (depth 3 quick / 5 thorough) over reference ledger states with a 24-transaction alphabet built around assertions (after assignment, after inferred posting on same/other account, twice on one account, multi-commodity, = 0), plus ALL assertion-bearing transactions of <=3 postings (<=4 thorough) over a 90-posting alphabet from 8 start states, written plainly, via aliases and with the history in an included file. Every edge re-runs the real code on the whole history: accept iff every assertion is true at its position in file order; on a false assertion the error is BalanceAssertionFailure on that posting's line with the reference's computed balance.",
+         "Explicit-state BFS (depth 3 quick / 5 thorough) over reference ledger states with a 27-transaction alphabet built around assertions (after assignment, after inferred posting on same/other account, twice on one account, multi-commodity, = 0, inferred postings next to zero-valued commodities), plus ALL assertion-bearing transactions of <=3 postings (<=4 thorough) over a 110-posting alphabet (incl. pure-check postings `0 = X` and balances finer than the asserted figure) from 8 start states, written plainly, via two aliases (one declared after a note line) and with the history in an included file, plus 504 (sub-precision history, assertion) pairs under declared commodity precisions. Every edge re-runs the real code on the whole history: accept iff every assertion is true at its position in file order; on a false assertion the error is BalanceAssertionFailure on that posting's line with the reference's computed balance.",
          "Trusted: RefLedger. One genuine defect (assertion after an omitted posting on the same account) is recorded in known_findings.json and reported as KNOWN-FINDING; every other signature fails the check.",
          "DESIGN.md §5 C02",
          "explicit-state BFS over reference states with real-code re-execution per transition + exhaustive depth-1 enumeration"),
@@ -42,7 +42,7 @@ CHECKS.update({
 
 CHECKS.update({
  "C04": ("model_checking",
-         "All ledgers of <=4 (thorough <=5) transactions from a 14-transaction alphabet (three dates, repeated dates, file order independent of date order, multi-commodity/cancelling/inferred/assigned/priced/sub-precision postings) x {no precision, X 2dp}; for each, all 36 (start,end) pairs incl. empty and inverted ranges are queried on the real Ledger, the register (all accounts and per account) is listed, and: balance = sum of register; range balance = sum of reference postings dated in [start,end) up to rounding; adjacent ranges add up for every split point; no commodity with exact zero total is shown; a slice also goes through the CLI (balance, register: final running total = balance).",
+         "All ledgers of <=4 (thorough <=5) transactions from a 16-transaction alphabet (three dates, repeated dates, file order independent of date order, multi-commodity/cancelling/inferred/assigned/priced/sub-precision postings) x {no precision, X 2dp}; for each, all 36 (start,end) pairs incl. empty and inverted ranges are queried on the real Ledger, the register (all accounts and per account) is listed, and: balance = sum of register; range balance = sum of reference postings dated in [start,end) up to rounding; adjacent ranges add up for every split point; no commodity with exact zero total is shown; a slice also goes through the CLI (balance, register: final running total = balance).",
          "Trusted: RefLedger per-posting amounts, exact rational sums. A range report may equal the exact sum or its rounding to declared precision (any midpoint rule).",
          "DESIGN.md §5 C04",
          "explicit enumeration of transaction histories x exhaustive date-range queries, real reports compared with each other and with the reference ledger"),
@@ -63,7 +63,7 @@ CHECKS.update({
 
 CHECKS.update({
  "C06": ("model_checking",
-         "Under process isolation with a per-case hang watchdog (a panic, a dead worker, a stack overflow, a case running > 20 s are verdicts): ALL sequences of <=4 (thorough <=5) tokens over a 30-token ledger alphabet (bare and behind a valid transaction header), every prefix cut at every character and at every byte of every .ledger file in the repository and of a kitchen-sink document, all include graphs on <=3 files with <=2 include lines each (self-loops, cycles, diamonds, missing targets, globs matching the includer) in memory and the small ones on the real file system through the real binary, 19 nestable/repeatable constructs pumped to n in {1..10^5} through the real binary (balance, register, format, accounts), and all 1-2 posting transactions containing a zero x 4 zero-rate price databases through balance and both conversion strategies. Every run must terminate with a result or a non-empty diagnostic.",
+         "Under process isolation with a per-case hang watchdog (a panic, a dead worker, a stack overflow, a case running > 20 s are verdicts): ALL sequences of <=4 (thorough <=5) tokens over a 30-token ledger alphabet (bare and behind a valid transaction header), every prefix cut at every character and at every byte of every .ledger file in the repository and of a kitchen-sink document, all include graphs on <=3 files with <=2 include lines each (self-loops, cycles, diamonds, missing targets, globs matching the includer) in memory and the small ones on the real file system through the real binary, 22 nestable/repeatable constructs pumped to n in {1..10^4} (expression-shaped ones to 10^5, thorough 10^6) through the real binary, all include graphs on 3 files in 2 directories with every edge written through `..` on the real file system, all 2-posting transactions under declared precisions (balance, register, format, accounts), and all 1-2 posting transactions containing a zero x 4 zero-rate price databases through balance and both conversion strategies. Every run must terminate with a result or a non-empty diagnostic.",
          "Assumes numbers within the representable decimal range (out-of-range literals must be rejected; arithmetic overflow beyond 28 digits is outside the property). The watchdog threshold is 20 s per case. Truncation corpus = the repository's own ledgers + one document using every documented construct.",
          "DESIGN.md §2.3, §5 C06",
          "bounded-exhaustive input enumeration under process isolation with hang/abort detection (stateless exploration; crash, abort and non-termination are verdicts)"),
